@@ -56,6 +56,7 @@ def run(ctx):
             "HashMap/HashSet of the printers' context are modelled as association lists / lists (only get/contains are used; C17 covers iteration order)",
             "ast_to_type_system / Schema::get_type / iter_types as used by the printers: first definition of a name wins, insertion order (C10/Model.v get_type, iter_types)",
             "the harness reads the names the implementation declares off its recorded writer operations (write_for following write_for 'export type '/'type ')",
+            "spec side: C10/Parse.v, a reader of the emitted subset of TypeScript used to read the implementation's schema text back (a text it cannot read counts as a failure); C10/Domain.v, the generator of candidate values",
         ],
         assumptions=[
             "C10_alias_exact is stated for schemas satisfying the computable guard wf_schema (unique type names, no '__' names, every scalar configured, every referenced type defined and of the right kind: what `check` enforces plus scalar configuration); C10_schema_decls_total shows the printer cannot fail or panic under that guard",
